@@ -231,7 +231,16 @@ pub fn generate(rng: &mut Rng, prop: Prop) -> Scenario {
                     _ => rng.range(0, total - flen as u64),
                 };
                 let (off, flen) = if off == 0 && flen as u64 == total { (0, flen - 1) } else { (off, flen) };
-                let t = if rng.chance(1, 2) { rng.u8() } else { *rng.pick(&[1u8, 2, 3, 11, 12, 14, 16, 20]) };
+                // (assigned handshake types: the statement ranges over lengths and offsets, not over types)
+                let t = *rng.pick(&[0u8, 1, 2, 3, 4, 11, 12, 13, 14, 15, 16, 20, 22]);
+                // a fragment may also run past the end of its message (offset + fragment_length > length):
+                // with a non-zero offset it is a Fragment all the same
+                let (off, flen) = if rng.chance(1, 6) && total < 0xff_0000 {
+                    let off = rng.range(1, total);
+                    (off, (total - off) as usize + rng.urange(1, 40))
+                } else {
+                    (off, flen)
+                };
                 seqno = (seqno + 1) & 0xffff_ffff_ffff;
                 let ms = seq_base.wrapping_add(100 + rng.below(50) as u16);
                 recs.push(Rec { ctype: 22, ver, epoch, seqno, content: Content::Synth(vec![(t, total, ms, off, rng.bytes(flen))]), declen: None });
@@ -328,6 +337,21 @@ pub fn generate(rng: &mut Rng, prop: Prop) -> Scenario {
                 }
             } else {
                 merged.push(r);
+            }
+        }
+        // sequence numbers are the sender's business: a retransmitting or buggy peer repeats them, a
+        // reordering one sends them decreasing; the parser returns what is on the wire
+        if f_seqb && rng.chance(1, 2) {
+            for i in 1..merged.len() {
+                match rng.below(6) {
+                    0 => merged[i].seqno = merged[i - 1].seqno,
+                    1 => merged[i].seqno = merged[i - 1].seqno.saturating_sub(rng.range(1, 3)),
+                    2 => {
+                        merged[i].seqno = merged[i - 1].seqno;
+                        merged[i].epoch = merged[i - 1].epoch;
+                    }
+                    _ => {}
+                }
             }
         }
         let mut cur: Vec<Rec> = Vec::new();
